@@ -47,7 +47,8 @@ VEq(a, b) ==
        [] a.t = "dict" ->
             /\ Len(a.v) = Len(b.v)
             /\ \A i \in 1..Len(a.v) : \E j \in 1..Len(b.v) : VEq(a.v[i][1], b.v[j][1]) /\ VEq(a.v[i][2], b.v[j][2])
-       [] OTHER -> ToJson(a) = ToJson(b)
+       \* same tag => same shape of v; never compare through ToJson (record field order is not canonical)
+       [] OTHER -> a.v = b.v
 
 (***************************************************************************)
 (* dict helpers (insertion ordered association lists)                      *)
@@ -141,11 +142,14 @@ Params(t) ==
     [] t = "kw" -> << <<"a", FALSE, Val(NoneV)>>, <<"b", TRUE, Val(IntV(2))>>, <<"c", TRUE, Val(IntV(3))>> >>
     [] t = "ctxdef" -> << <<"x", FALSE, Val(NoneV)>>, <<"y", TRUE, GetCtx(<<"a", "b">>, IntV(7))>> >>
     [] t \in {"mkthread", "jointh"} -> << <<"x", FALSE, Val(NoneV)>> >>
+    [] t = "clvl" -> << <<"n", FALSE, Val(NoneV)>>, <<"ovs", FALSE, Val(NoneV)>>, <<"path", FALSE, Val(NoneV)>>,
+                        <<"default", FALSE, Val(NoneV)>> >>
+    [] t = "olvl" -> << <<"n", FALSE, Val(NoneV)>>, <<"plan", FALSE, Val(NoneV)>> >>
     [] t \in {"ctxget", "ctxtree", "probe", "probetree"} -> <<>>
 
 \* definition-time options (the @task(...) decorator) that the probes look at
 DefOpts(t) ==
-  CASE t = "probe" -> DictV(<< <<StrV("memory"), IntV(1)>>, <<StrV("vcpus"), IntV(1)>> >>)
+  CASE t \in {"probe", "olvl"} -> DictV(<< <<StrV("memory"), IntV(1)>>, <<StrV("vcpus"), IntV(1)>> >>)
     [] t = "probetree" -> DictV(<< <<StrV("memory"), IntV(5)>> >>)
     [] OTHER -> EmptyDict
 
@@ -185,6 +189,29 @@ Body(t, a, jopts) ==
     [] t = "mkthread" -> [k |-> "fork", e |-> Call("inc", <<Val(a[1])>>)]
     [] t = "jointh" -> [k |-> "join", e |-> Val(a[1])]
     [] t = "probe" -> OptProbe
+    \* a chain of jobs, each observing its context three ways (get_context in the body, through a
+    \* child call, through an expression-valued default argument) and overriding it for the next level
+    [] t = "clvl" ->
+         LET here == GetCtx([i \in 1..Len(a[3].v) |-> a[3].v[i].v], a[4])
+             obs == <<here, Call("ctxget", <<>>), Call("ctxdef", <<Val(IntV(0))>>)>>
+         IN IF IntOr(a[1]) <= 0 THEN ListE(obs)
+            ELSE ListE(Append(obs,
+                   [Call("clvl", <<Val(IntV(IntOr(a[1]) - 1)), Val(ListV(Tail(a[2].v))), Val(a[3]), Val(a[4])>>)
+                      EXCEPT !.ctx = Head(a[2].v)]))
+    \* a chain of jobs, each probing its options and calling the next level with call-time options
+    \* (plain and expression valued) and exported options
+    [] t = "olvl" ->
+         IF IntOr(a[1]) <= 0 THEN ListE(<<OptProbe>>)
+         ELSE LET step == Head(a[2].v)
+                  plain == DGet(step, StrV("opts")).v
+                  lazy == DGet(step, StrV("lazy")).v
+                  expo == DGet(step, StrV("exp")).v
+                  items == [i \in 1..Len(plain) |-> <<Val(plain[i][1]), Val(plain[i][2])>>]
+                           \o [i \in 1..Len(lazy) |-> <<Val(lazy[i][1]), Call("inc", <<Val(lazy[i][2])>>)>>]
+                           \o [i \in 1..Len(expo) |-> <<Val(expo[i][1]), Val(expo[i][2])>>]
+              IN ListE(<<OptProbe,
+                         [Call("olvl", <<Val(IntV(IntOr(a[1]) - 1)), Val(ListV(Tail(a[2].v)))>>)
+                            EXCEPT !.opts = items, !.exp = [i \in 1..Len(expo) |-> expo[i][1].v]]>>)
     [] t = "probetree" -> ListE(<<OptProbe, Call("probe", <<>>),
                                   [Call("probe", <<>>) EXCEPT !.opts = << <<Val(StrV("vcpus")), Val(IntV(8))>> >>]>>)
 
